@@ -181,6 +181,73 @@ theorem no_reroute_keeps_outbound (w : World) (ob nOut : Nat) (dst : Dst) (d : S
   simp only [] at hrr
   simp [hrr, hob, Nat.not_le.mpr hlt]
 
+/-- **Re-route ⇒ the target is chosen again for the outbound userspace routing returned.**
+Whenever `chooseProxyDialer` re-routes — because `ChooseDialTarget` asked for it (domain++ always,
+domain mode for a genuine name) or because the kernel handed the flow over
+(`OutboundControlPlaneRouting`) — the outbound used is `route name`, and target and `dialIp` are what
+a second `ChooseDialTarget` answers for THAT outbound (in the world the first call left): in
+particular the destination IP and port, as an IP dial, when routing returned a built-in outbound
+(direct, block, …), whatever the first call had chosen. Any mode, any world. -/
+theorem reroute_rechooses_target (w : World) (ob ob2 nOut : Nat) (dst : Dst) (d : Str)
+    (route : Str → Option Nat)
+    (h : (chooseDialTarget w ob dst d).2.reroute = true ∨ ob = outboundControlPlaneRouting)
+    (hrt : route d = some ob2) (hlt : ob2 < nOut) :
+    (chooseProxyDialer w ob dst d route nOut).2.outbound = some ob2 ∧
+    (chooseProxyDialer w ob dst d route nOut).2.target =
+      (chooseDialTarget (chooseDialTarget w ob dst d).1 ob2 dst d).2.target ∧
+    (chooseProxyDialer w ob dst d route nOut).2.dialIp =
+      (chooseDialTarget (chooseDialTarget w ob dst d).1 ob2 dst d).2.dialIp ∧
+    (isReserved ob2 = true →
+      (chooseProxyDialer w ob dst d route nOut).2.target = fmtAddrPort dst ∧
+      (chooseProxyDialer w ob dst d route nOut).2.dialIp = true) := by
+  unfold chooseProxyDialer
+  rcases hc : chooseDialTarget w ob dst d with ⟨w1, c1⟩
+  rw [hc] at h
+  simp only [] at h ⊢
+  have hob : (if c1.reroute = true then outboundControlPlaneRouting else ob) = outboundControlPlaneRouting := by
+    rcases h with h | h
+    · rw [if_pos h]
+    · split
+      · rfl
+      · exact h
+  rw [if_pos hob, hrt]
+  simp only []
+  refine ⟨?_, ?_, ?_, ?_⟩
+  · simp [Nat.not_le.mpr hlt]
+  · simp [Nat.not_le.mpr hlt]
+  · simp [Nat.not_le.mpr hlt]
+  · intro hres
+    rw [ip_target_when_ip_mode_or_no_name_or_reserved w1 ob2 dst d (Or.inr (Or.inr hres))]
+    simp [Nat.not_le.mpr hlt]
+
+/-- … and when routing by the name fails or names an outbound that does not exist, nothing is dialled. -/
+theorem reroute_failure_no_dial (w : World) (ob nOut : Nat) (dst : Dst) (d : Str) (route : Str → Option Nat)
+    (h : (chooseDialTarget w ob dst d).2.reroute = true ∨ ob = outboundControlPlaneRouting)
+    (hrt : route d = none ∨ ∃ ob2, route d = some ob2 ∧ nOut ≤ ob2) :
+    (chooseProxyDialer w ob dst d route nOut).2.outbound = none := by
+  unfold chooseProxyDialer
+  rcases hc : chooseDialTarget w ob dst d with ⟨w1, c1⟩
+  rw [hc] at h
+  simp only [] at h ⊢
+  have hob : (if c1.reroute = true then outboundControlPlaneRouting else ob) = outboundControlPlaneRouting := by
+    rcases h with h | h
+    · rw [if_pos h]
+    · split
+      · rfl
+      · exact h
+  rw [if_pos hob]
+  rcases hrt with hn | ⟨ob2, hs, hge⟩
+  · rw [hn]
+  · rw [hs]; simp [hge]
+
+example :
+    -- domain mode, genuine name (knowledge), routing sends the name to `direct` (0): IP target
+    let w : World := { mode := .domain, now := 5, know := [("re.test.1".toList, 9)] }
+    let route : Str → Option Nat := fun n => if n = "re.test".toList then some 0 else some 4
+    (chooseDialTarget w 2 ⟨true, 0x01020304, 443⟩ "re.test".toList).2.target = "re.test:443".toList ∧
+    (chooseProxyDialer w 2 ⟨true, 0x01020304, 443⟩ "re.test".toList route 5).2
+      = { outbound := some 0, target := "1.2.3.4:443".toList, dialIp := true, probeReq := none } := by decide
+
 /-- a kernel verdict "route in the control plane" (`OutboundControlPlaneRouting`, also the fallback
 when the routing result is missing), in EVERY mode: the outbound is the routing answer for the
 sniffed name and the target is what `ChooseDialTarget` says for that outbound. -/
@@ -703,6 +770,96 @@ theorem genuine_name_has_witness (w0 : World)
   rcases h.2 with hkn | hrs
   · exact Or.inl (knowledge_only_from_resolution_within_ttl w0 hc hk hr es d dst.is4 hkn)
   · exact Or.inr (real_set_only_from_positive_probe w0 hc hk hr es d (by simpa using hrs))
+
+/-! ### the probe: when it is started and what it changes -/
+
+/-- domain mode, user outbound, a name that is not IP-like, has no live knowledge for the
+destination's family, is not in the verified set and has no live negative entry: the flow gets the
+destination IP (no re-route), **a probe of exactly this name is requested**, and the world is
+unchanged up to the two lazy deletions of expired entries (`cleaned`). A second call made while the
+probe is still in flight decides the same and changes nothing more. -/
+theorem unknown_name_requests_probe (w : World) (ob : Nat) (dst : Dst) (d : Str)
+    (hm : w.mode = .domain) (hr : isReserved ob = false) (hd : d ≠ []) (hi : isIPLike d = false)
+    (hk : ∀ e, w.know.get (cacheKey d dst.is4) = some e → e ≤ w.now)
+    (hrs : w.realSet.contains d = false)
+    (hn : ∀ e, w.neg.get d = some e → e ≤ w.now) :
+    chooseDialTarget w ob dst d =
+      (cleaned w (cacheKey d dst.is4) d,
+       { target := fmtAddrPort dst, reroute := false, dialIp := true, probeReq := some d }) ∧
+    chooseDialTarget (cleaned w (cacheKey d dst.is4) d) ob dst d =
+      (cleaned w (cacheKey d dst.is4) d,
+       { target := fmtAddrPort dst, reroute := false, dialIp := true, probeReq := some d }) := by
+  have first : ∀ w' : World, w'.mode = .domain →
+      (∀ e, w'.know.get (cacheKey d dst.is4) = some e → e ≤ w'.now) → w'.realSet.contains d = false →
+      (∀ e, w'.neg.get d = some e → e ≤ w'.now) →
+      chooseDialTarget w' ob dst d =
+        (cleaned w' (cacheKey d dst.is4) d,
+         { target := fmtAddrPort dst, reroute := false, dialIp := true, probeReq := some d }) := by
+    intro w' hm' hk' hrs' hn'
+    rw [chooseDialTarget_eq, decideMode_unknown w' ob dst d hm' hr hd hi hk' hrs' hn']
+    rfl
+  refine ⟨first w hm hk hrs hn, ?_⟩
+  -- the cleaned world satisfies the same hypotheses and is a fixed point of `cleaned`
+  obtain ⟨k1, k2, k3, k4, _⟩ := dropExpiredKnow_frame w (cacheKey d dst.is4)
+  obtain ⟨n1, n2, n3, n4, _⟩ := dropExpiredNeg_frame (dropExpiredKnow w (cacheKey d dst.is4)) d
+  have gk : (cleaned w (cacheKey d dst.is4) d).know.get (cacheKey d dst.is4) = none := by
+    unfold cleaned; rw [n4]; exact dropExpiredKnow_get w _ hk
+  have gn : (cleaned w (cacheKey d dst.is4) d).neg.get d = none := by
+    unfold cleaned
+    exact dropExpiredNeg_get _ d (by rw [k4, k2]; exact hn)
+  have step2 := first (cleaned w (cacheKey d dst.is4) d)
+    (by unfold cleaned; rw [n1, k1]; exact hm)
+    (by intro e he; rw [gk] at he; cases he)
+    (by unfold cleaned; rw [n3, k3]; exact hrs)
+    (by intro e he; rw [gn] at he; cases he)
+  rw [step2]
+  have fix : cleaned (cleaned w (cacheKey d dst.is4) d) (cacheKey d dst.is4) d = cleaned w (cacheKey d dst.is4) d := by
+    have a : dropExpiredKnow (cleaned w (cacheKey d dst.is4) d) (cacheKey d dst.is4) = cleaned w (cacheKey d dst.is4) d := by
+      unfold dropExpiredKnow; rw [gk]
+    show dropExpiredNeg (dropExpiredKnow (cleaned w (cacheKey d dst.is4) d) (cacheKey d dst.is4)) d = _
+    rw [a]
+    unfold dropExpiredNeg; rw [gn]
+  rw [fix]
+
+/-- what a completed probe of a not-yet-known name changes: nothing without a bootstrap resolver
+(fail closed) or when both lookups failed (timeout included); a negative entry for
+`realDomainNegativeCacheTTL` when the resolvers answered without an address; the name joins the
+verified set when some resolver returned an address. -/
+theorem probe_outcomes (w : World) (d : Str) (ans : List Ans)
+    (hrs : w.realSet.contains d = false) (hn : ∀ e, w.neg.get d = some e → e ≤ w.now) :
+    let w1 := dropExpiredNeg w d
+    let r := probeResult w ans
+    probe w d ans =
+      if w.nboot = 0 then w1
+      else if r.err4 && r.err6 then w1
+      else if !r.ip4 && !r.ip6 then { w1 with neg := w1.neg.put d (w1.now + w1.negTtl) }
+      else addVerified w1 d := by
+  obtain ⟨_, _, _, _, _, _, nb⟩ := dropExpiredNeg_frame w d
+  unfold probe probeResult
+  rw [lookupReal_of_unknown w d hrs hn]
+  simp only [Bool.false_eq_true, if_false, nb]
+
+/-- two flows probing the same name: once the first completion made the name verified, a second
+completion (whatever it was answered) changes nothing. -/
+theorem second_probe_is_noop (w : World) (d : Str) (ans : List Ans) (h : d ∈ w.realSet) :
+    probe w d ans = w := by
+  unfold probe lookupReal
+  have : w.realSet.contains d = true := by simpa using h
+  rw [if_pos this]
+  rfl
+
+example :
+    let w : World := { mode := .domain, nboot := 2 }
+    let d := "new.test".toList
+    -- first sight: IP + probe; positive completion; second sight: the name
+    (chooseDialTarget w 2 ⟨true, 0x01020304, 443⟩ d).2.probeReq = some d ∧
+    (chooseDialTarget (probe w d [⟨false, false, true, true⟩, ⟨true, false, false, false⟩]) 2 ⟨true, 0x01020304, 443⟩ d).2.target
+      = "new.test:443".toList ∧
+    -- both lookups of every resolver failed (e.g. timeout): nothing is cached, probed again next time
+    (probe w d [⟨false, false, true, true⟩, ⟨false, false, true, true⟩]).neg = [] ∧
+    (probe w d [⟨false, false, true, true⟩, ⟨false, false, true, true⟩]).realSet = [] ∧
+    -- no address, no error: negative entry for 10 s
+    (probe w d [⟨false, false, false, false⟩]).neg = [(d, 10000000000)] := by decide
 
 /-- a negatively cached name (probe said "no such name", entry not yet expired) is neither used
 nor probed again. -/
